@@ -2,6 +2,8 @@
 
 package socks5
 
+import "net"
+
 // Export shims for the verification harness (injected by -overlay; never committed to the repo).
 
 // VerifParseUDPHeader calls the real parseUDPHeader (it uses no relay state).
@@ -15,3 +17,6 @@ func VerifBuildUDPHeader(dstHost string, dstPort int, payload []byte) []byte {
 	r := &UDPRelay{}
 	return r.buildUDPHeader(dstHost, dstPort, payload)
 }
+
+// VerifHandleConnection runs the real per-connection handler (what acceptLoop starts for an accepted conn).
+func (l *Listener) VerifHandleConnection(conn net.Conn) { l.handleConnection(conn) }
